@@ -325,8 +325,16 @@ func genMethods(r *rng, idx int) srvCase {
 }
 
 // ---------------------------------------------------------------- scenario: tokens (C10) and peers (C11)
-func genTokens(r *rng, idx int) srvCase {
+func genTokens(r *rng, idx int) srvCase { return genTokensCfg(r, idx, nil) }
+
+// genTokensCfg is the token scenario under a configuration chosen by tweak (nil = the base configuration:
+// peer store and announce hook both configured). Without a peer store get_peers hands out no token, so
+// tokens are then obtained through BEP 44 get.
+func genTokensCfg(r *rng, idx int, tweak func(*srvCfg)) srvCase {
 	c := srvCase{idx: idx, cfg: baseCfg(r, "tokens")}
+	if tweak != nil {
+		tweak(&c.cfg)
+	}
 	root := c.cfg.root
 	a4 := randAddr(r, 0)
 	other := randAddr(r, 0)
@@ -338,8 +346,13 @@ func genTokens(r *rng, idx int) srvCase {
 	c.evs = append(c.evs, sev{kind: "adv", adv: time.Duration(r.intn(300)) * time.Second})
 	var issued, otherTok string
 	issue := func() {
-		c.evs = append(c.evs, qpkt(a4, "get_peers", "gp", &krpc.MsgArgs{ID: id, InfoHash: ih}))
-		c.evs = append(c.evs, qpkt(other, "get_peers", "go", &krpc.MsgArgs{ID: id, InfoHash: ih}))
+		if tweak != nil && (!c.cfg.ps || r.bool()) {
+			c.evs = append(c.evs, qpkt(a4, "get", "gp", &krpc.MsgArgs{ID: id, Target: ih}))
+			c.evs = append(c.evs, qpkt(other, "get", "go", &krpc.MsgArgs{ID: id, Target: ih}))
+		} else {
+			c.evs = append(c.evs, qpkt(a4, "get_peers", "gp", &krpc.MsgArgs{ID: id, InfoHash: ih}))
+			c.evs = append(c.evs, qpkt(other, "get_peers", "go", &krpc.MsgArgs{ID: id, InfoHash: ih}))
+		}
 		c.evs = append(c.evs, sev{kind: "adv", adv: 0, dyn: func(st *srvState, e *sev) {
 			issued = st.lastTok[ipKey(a4.IP)]
 			otherTok = st.lastTok[ipKey(other.IP)]
@@ -698,6 +711,236 @@ func genBudget(r *rng, idx int) srvCase {
 	return c
 }
 
+
+// ---------------------------------------------------------------- configuration lattice (C10 C11 C08)
+// The write handlers under every combination of the two optional announce consumers (peer store,
+// announce hook), with and without WaitToReply and a pass-through query hook: the token rules do not
+// depend on what the application does with an accepted announce.
+func cfgLattice(k int) func(*srvCfg) {
+	return func(c *srvCfg) {
+		c.ps = k&1 != 0
+		c.cb = k&2 != 0
+		c.wait = k&4 != 0
+		if k&8 != 0 {
+			c.veto = []string{"__no_such_method__"}
+		}
+	}
+}
+
+// the (peer store, hook) combinations other than the base one, each with varying wait / query hook
+var latticePoints = []int{0, 1, 2, 4, 8 + 1, 4 + 2, 8 + 4, 8 + 2, 4 + 1, 8 + 4 + 3}
+
+func genTokensLattice(r *rng, idx int) srvCase {
+	return genTokensCfg(r, idx, cfgLattice(latticePoints[idx%len(latticePoints)]))
+}
+
+// the method x argument lattice on a node that tracks no peers at all (neither store nor hook)
+func genMethodsBare(r *rng, idx int) srvCase {
+	c := genMethods(r, idx)
+	c.cfg.passive = false
+	c.cfg.veto = nil
+	c.cfg.ps = false
+	c.cfg.cb = false
+	c.cfg.wait = r.bool()
+	return c
+}
+
+// ---------------------------------------------------------------- scenario: transaction-id collisions (C08 C07)
+// Peers we have queries outstanding to send us their OWN queries carrying exactly our transaction ids
+// (ids are small counters: two nodes talking to each other collide all the time), from the same
+// address, from the other representation of the same IPv4 address, from neighbouring addresses, before
+// and after the genuine reply, after a cancel. Each such query is answered like any other query and
+// leaves our transaction alone; the genuine reply still completes it.
+func genCollide(r *rng, idx int) srvCase {
+	c := srvCase{idx: idx, cfg: baseCfg(r, "collide")}
+	switch r.intn(8) {
+	case 0:
+		c.cfg.passive = true
+	case 1:
+		c.cfg.ps, c.cfg.cb = false, false
+	case 2:
+		c.cfg.wait = true
+	}
+	root := c.cfg.root
+	type oq struct {
+		id int
+		d  speer
+	}
+	var dsts []speer
+	for fam := 0; fam < 3; fam++ {
+		dsts = append(dsts, speer{addr: randAddr(r, fam), id: idInBucket(r, root, r.intn(160))})
+	}
+	qid := 0
+	var open []oq
+	start := func(d speer) {
+		qid++
+		open = append(open, oq{qid, d})
+		q := []string{"ping", "find_node", "get_peers"}[r.intn(3)]
+		c.evs = append(c.evs, sev{kind: "qstart", qid: qid, src: d.addr, q: q, rated: r.intn(4) != 0, args: krpc.MsgArgs{Target: root, InfoHash: root}})
+	}
+	methods := []string{"ping", "ping", "find_node", "get_peers", "get", "announce_peer", "put", "zzz", ""}
+	collide := func(o oq, variant int) {
+		q := methods[r.intn(len(methods))]
+		var a *krpc.MsgArgs
+		if r.intn(4) != 0 {
+			sid := o.d.id
+			if r.intn(3) == 0 {
+				sid = idInBucket(r, root, r.intn(160))
+			}
+			a = &krpc.MsgArgs{ID: sid, Want: wantChoices(r)}
+			copy(a.Target[:], r.bytes(20))
+			copy(a.InfoHash[:], r.bytes(20))
+			if r.bool() {
+				a.Token = string(r.bytes(r.intn(21)))
+			}
+			if r.bool() {
+				p := 1 + r.intn(65535)
+				a.Port = &p
+			}
+		}
+		ro := r.intn(8) == 0
+		otherPort := o.d.addr.Port%65535 + 1
+		otherIP := randAddr(r, 0)
+		e := sev{kind: "pkt", src: o.d.addr}
+		e.dyn = func(st *srvState, e *sev) {
+			t := st.qt[o.id]
+			src := o.d.addr
+			switch variant {
+			case 4: // the same address in its other representation: the same transaction key
+				if ip4 := src.IP.To4(); ip4 != nil {
+					if len(src.IP) == 4 {
+						src = udp(mapped(ip4), src.Port)
+					} else {
+						src = udp(ip4, src.Port)
+					}
+				}
+			case 5:
+				src = udp(src.IP, otherPort)
+			case 6:
+				src = otherIP
+			case 7:
+				t += "\x00"
+			}
+			e.src = src
+			e.msg = &krpc.Msg{Q: q, Y: "q", T: t, A: a, ReadOnly: ro}
+		}
+		c.evs = append(c.evs, e)
+	}
+	reply := func(o oq, y string) {
+		e := sev{kind: "pkt", src: o.d.addr}
+		e.dyn = func(st *srvState, e *sev) {
+			m := &krpc.Msg{Y: y, T: st.qt[o.id]}
+			switch y {
+			case "r":
+				m.R = &krpc.Return{ID: o.d.id}
+			case "e":
+				m.E = &krpc.Error{Code: 202, Msg: "srv"}
+			}
+			e.msg = m
+		}
+		c.evs = append(c.evs, e)
+	}
+	// two queries outstanding to the first destination, one to each of the others
+	start(dsts[0])
+	start(dsts[0])
+	start(dsts[1])
+	start(dsts[2])
+	for _, o := range open {
+		collide(o, 0)
+		collide(o, r.intn(8))
+	}
+	for steps := 0; len(open) > 0 && steps < 30; steps++ {
+		k := r.intn(len(open))
+		o := open[k]
+		drop := func() { open = append(open[:k], open[k+1:]...) }
+		switch x := r.intn(12); {
+		case x < 6:
+			collide(o, r.intn(8))
+		case x < 9:
+			// the genuine reply still finds the transaction; afterwards the id is just a stale string
+			reply(o, []string{"r", "r", "r", "e", "x"}[r.intn(5)])
+			drop()
+			collide(o, 0)
+		case x == 9:
+			c.evs = append(c.evs, sev{kind: "qend", qid: o.id})
+			drop()
+			collide(o, r.intn(5))
+		default:
+			if len(open) < 4 {
+				start(dsts[r.intn(len(dsts))])
+				collide(open[len(open)-1], 0)
+			}
+		}
+	}
+	return c
+}
+
+// ---------------------------------------------------------------- scenario: slow application hook (C11 C10 C01)
+// The peers scenario on a node whose OnAnnouncePeer hook does not return (an application handing
+// announces to a busy worker): get_peers is asked while the hooks of accepted announces are still
+// blocked, the hooks are released at some points of the history (event hookrel: no effect on the
+// node) and block again afterwards.
+func genPeersHook(r *rng, idx int) srvCase {
+	c := srvCase{idx: idx, cfg: baseCfg(r, "peershook")}
+	c.cfg.cbBlock = true
+	c.cfg.wait = r.intn(3) == 0
+	root := c.cfg.root
+	var ihs [2][20]byte
+	for i := range ihs {
+		copy(ihs[i][:], r.bytes(20))
+	}
+	var ann []*net.UDPAddr
+	for i := 0; i < 4; i++ {
+		ann = append(ann, randAddr(r, famOf(r)))
+	}
+	ann = append(ann, udp(ann[0].IP, 1+r.intn(65535)))
+	announce := func(src *net.UDPAddr, ih [20]byte, goodToken bool) {
+		id := idInBucket(r, root, r.intn(160))
+		c.evs = append(c.evs, qpkt(src, "get_peers", "t", &krpc.MsgArgs{ID: id, InfoHash: ih}))
+		port := []int{1, 80, 6881, 65535, 1 + r.intn(65535)}[r.intn(5)]
+		implied := r.intn(3) == 0
+		withPort := !implied || r.bool()
+		e := sev{kind: "pkt", src: src}
+		e.dyn = func(st *srvState, e *sev) {
+			a := &krpc.MsgArgs{ID: id, InfoHash: ih, Token: st.lastTok[ipKey(src.IP)], ImpliedPort: implied}
+			if !goodToken {
+				a.Token = "x" + a.Token
+			}
+			if withPort {
+				a.Port = &port
+			}
+			e.msg = &krpc.Msg{Q: "announce_peer", Y: "q", T: "ap", A: a}
+		}
+		c.evs = append(c.evs, e)
+	}
+	ask := func(ih [20]byte) {
+		c.evs = append(c.evs, qpkt(randAddr(r, famOf(r)), "get_peers", "gq", &krpc.MsgArgs{ID: idInBucket(r, root, r.intn(160)), InfoHash: ih, Want: wantChoices(r)}))
+	}
+	for step := 0; step < 12; step++ {
+		ih := ihs[r.intn(len(ihs))]
+		switch x := r.intn(10); {
+		case x < 6:
+			announce(ann[r.intn(len(ann))], ih, r.intn(6) != 0)
+			if r.bool() {
+				ask(ih)
+			}
+		case x < 9:
+			ask(ih)
+		default:
+			c.evs = append(c.evs, sev{kind: "hookrel"})
+		}
+	}
+	// every infohash while the hooks are blocked, and again after their release
+	for _, ih := range ihs {
+		c.evs = append(c.evs, qpkt(randAddr(r, 0), "get_peers", "gf", &krpc.MsgArgs{ID: idInBucket(r, root, 5), InfoHash: ih, Want: []krpc.Want{"n4", "n6"}}))
+	}
+	c.evs = append(c.evs, sev{kind: "hookrel"})
+	for _, ih := range ihs {
+		c.evs = append(c.evs, qpkt(randAddr(r, 1), "get_peers", "gf", &krpc.MsgArgs{ID: idInBucket(r, root, 5), InfoHash: ih, Want: []krpc.Want{"n4", "n6"}}))
+	}
+	return c
+}
+
 func genServerCases(seed uint64, tier string) []srvCase {
 	r := &rng{s: seed ^ 0x5e7e7}
 	mult := 1
@@ -720,5 +963,10 @@ func genServerCases(seed uint64, tier string) []srvCase {
 	add(genMisc, 3)
 	add(genBudget, 4)
 	add(genBep44, 8)
+	// appended after the older scenarios so that their cases keep their index and PRNG stream
+	add(genCollide, 5)
+	add(genTokensLattice, 10)
+	add(genMethodsBare, 2)
+	add(genPeersHook, 4)
 	return cases
 }
